@@ -180,6 +180,40 @@ Definition attempt_fits (w : world) (i pod : Z) (nc : bool) (pin : Z) (erdma : b
               | _ => acc =? 1 end
   | None => false end.
 
+(* ---- the balancer pass (manager.go:279-356) replayed against what was observed ------------------ *)
+Definition usage (c : cfg) (s : slot) : Z * Z :=
+  if (s_eni s =? 0) || negb (match s_st s with SInUse => true | _ => false end) then (0, 0)
+  else if c_on4 c then (len (idles (f_set (s_4 s))), len (inuses (f_set (s_4 s))))
+  else if c_on6 c then (len (idles (f_set (s_6 s))), len (inuses (f_set (s_6 s))))
+  else (0, 0).
+Fixpoint block_disposes (rest : list (list Z)) : list (Z * Z * Z) :=
+  match rest with
+  | [] => []
+  | (99 :: _) :: _ => []
+  | (21 :: i :: n :: ret :: _) :: t => (i, n, ret) :: block_disposes t
+  | _ :: t => block_disposes t
+  end.
+Fixpoint block_preheats (rest : list (list Z)) (seen : list Z) : list Z :=
+  match rest with
+  | [] => seen
+  | (99 :: _) :: _ => seen
+  | (20 :: _ :: rid :: _ :: nc :: _) :: t => block_preheats t (if (nc =? 1) && negb (memz rid seen) then rid :: seen else seen)
+  | _ :: t => block_preheats t seen
+  end.
+Definition balancer_ok (c : cfg) (w : world) (rest : list (list Z)) : bool :=
+  let us := map (usage c) (w_slots w) in
+  let idle := fold_left Z.add (map fst us) 0 in
+  let inuse := fold_left Z.add (map snd us) 0 in
+  let ds := block_disposes rest in
+  let todel := idle - c_max c in
+  let shrink_ok :=
+    if todel <=? 0 then (match ds with [] => true | _ => false end)
+    else
+      let '(cur, ok) := fold_left (fun acc d => match acc, d with (cur, ok), (_, n, ret) => (cur - ret, ok && (0 <? cur) && (n =? cur)) end) ds (todel, true) in
+      ok && ((cur <=? 0) || (len ds =? len (w_slots w))) && nodupz (map (fun d => fst (fst d)) ds) in
+  let want := if c_tot c <=? idle + inuse then 0 else Z.max 0 (c_min c - idle) in
+  shrink_ok && (len (block_preheats rest []) =? want).
+
 Definition rec_step (c : cfg) (rest : list (list Z)) (w : world) (r : list Z) : world :=
   match r with
   | 1 :: rid :: pod :: pin :: pre :: _ =>
@@ -191,7 +225,7 @@ Definition rec_step (c : cfg) (rest : list (list Z)) (w : world) (r : list Z) : 
   | 3 :: _ => w
   | 4 :: _ => w
   | 5 :: _ => w
-  | 6 :: _ => w
+  | 6 :: _ => if balancer_ok c w rest then w else fail w 60
   | 7 :: i :: fam :: _ :: removed :: _ =>
       if removed =? 0 then w else app w i (LRemoteRemove (if fam =? 6 then F6 else F4) removed) 7
   | 8 :: _ => w
